@@ -183,7 +183,7 @@ LabelNames(ls) == {l.n : l \in ls}
 (* The scope labels carry name and version only, so two scopes may have the same labels.                      *)
 ScopeRec(env, sid) == IF \E i \in 1..Len(env.scopes) : env.scopes[i].id = sid
                       THEN env.scopes[CHOOSE i \in 1..Len(env.scopes) : env.scopes[i].id = sid]
-                      ELSE [id |-> sid, name |-> sid, version |-> "v" \o sid, url |-> "", attrs |-> <<>>]
+                      ELSE [id |-> sid, name |-> sid, version |-> "v" \o sid, url |-> "", attrs |-> <<>>, ill |-> ""]
 ScopeLabels(env, sid) == IF env.o.noScope THEN {}
                          ELSE LET r == ScopeRec(env, sid) IN {Lab("otel_scope_name", r.name), Lab("otel_scope_version", r.version)}
 (* otel_scope_info additionally carries the scope's attributes *)
@@ -275,7 +275,12 @@ XSeries(env, st, p, dv) ==
       fixed == ScopeLabels(env, st.scope) \cup ConstLabels(o, env.res)
       (* an attribute whose sanitised key equals a scope / constant label: the rules do *)
       (* not say what happens; the series may be missing, only its values are checked   *)
-      loose == LabelNames(al) \cap LabelNames(fixed) # {}
+      (* ILL-FORMED inputs the SDK accepts (attribute value / description / meter name, version or scope        *)
+      (* attribute value that is not valid UTF-8: flags ill).  The statement quantifies over valid inputs: for   *)
+      (* these only the unconditional clauses hold -- no panic, no race, the well-formed rest of the scrape is    *)
+      (* exposed faithfully.  Their own series may be missing and are recognised by their markers only.           *)
+      ill == InstOf(env, st.inst).ill \/ ScopeRec(env, st.scope).ill # "" \/ \E i \in 1..Len(as) : as[i].ill
+      loose == ill \/ LabelNames(al) \cap LabelNames(fixed) # {}
       exp == st.data = "exphist"
       presence == IF ("ColonKey" \in dv /\ HasColonKey(o, as)) \/ ("ExpScaleDrop" \in dv /\ exp /\ p.scale > 8) THEN "absent"
                   ELSE IF loose \/ (exp /\ p.scale < -4) THEN "may" ELSE "must"
@@ -323,10 +328,11 @@ Scrape(env, streams, cache, nm, dv) ==
                     good == SelectSeq(es, LAMBDA e : e.eh = es[1].eh)   \* the registry keeps the first help of a scrape
                     all == UNION {{XSeries(env, good[i].st, good[i].st.points[k], dv) : k \in 1..Len(good[i].st.points)}
                                   : i \in 1..Len(good)}
-                IN [name |-> n, typ |-> es[1].typ, help |-> es[1].eh, anyHelp |-> FALSE,
+                IN [name |-> n, typ |-> es[1].typ, help |-> es[1].eh, lax |-> FALSE,
+                    anyHelp |-> \E i \in 1..Len(es) : InstOf(env, es[i].st.inst).ill,
                     series |-> {x \in all : x.presence # "absent"}]
       target == IF o.noTarget THEN {}
-                ELSE {[name |-> "target_info", typ |-> "gauge", help |-> "", anyHelp |-> TRUE,
+                ELSE {[name |-> "target_info", typ |-> "gauge", help |-> "", anyHelp |-> TRUE, lax |-> FALSE,
                        series |-> {InfoSeries(Labels(o, env.res), "must")}]}
       shownScopes == {sh[i].st.scope : i \in 1..Len(sh)}
       allScopes == {streams[i].scope : i \in 1..Len(streams)}
@@ -334,7 +340,9 @@ Scrape(env, streams, cache, nm, dv) ==
       (* were all dropped may or may not have one                                           *)
       scopeInfo == IF o.noScope \/ allScopes = {} THEN {}
                    ELSE {[name |-> "otel_scope_info", typ |-> "gauge", help |-> "", anyHelp |-> TRUE,
-                          series |-> {InfoSeries(ScopeInfoLabels(env, s), "must") : s \in shownScopes}
+                          (* an ill-formed scope may or may not get an info series, whatever it looks like *)
+                          lax |-> \E s \in allScopes : ScopeRec(env, s).ill # "",
+                          series |-> {InfoSeries(ScopeInfoLabels(env, s), "must") : s \in {z \in shownScopes : ScopeRec(env, z).ill = ""}}
                                      \cup {InfoSeries(ScopeInfoLabels(env, s), "may") : s \in
                                               {q \in allScopes \ shownScopes : \A z \in shownScopes : ScopeInfoLabels(env, z) # ScopeInfoLabels(env, q)}}]}
       (* two scopes with equal info labels: ONE scope info series (a set); the deviation emits it twice *)
@@ -408,6 +416,7 @@ FamilyVerdict(x, obsFams) ==
        ELSE IF f.typ # x.typ THEN "type"
        ELSE IF ~x.anyHelp /\ f.help # x.help THEN "help"
        ELSE IF \E xs \in Must(x) : ~\E s \in Range(f.series) : SeriesLabelsOK(xs, s) THEN "missing-series"
+       ELSE IF x.lax THEN "ok"
        ELSE IF \E s \in Range(f.series) : ~\E xs \in x.series : SeriesLabelsOK(xs, s) THEN "extra-series"
        ELSE IF Len(f.series) > Cardinality(x.series) THEN "extra-series"
        ELSE IF \E s \in Range(f.series) : ~\E xs \in x.series : SeriesOK(xs, s) THEN "value"
@@ -428,6 +437,21 @@ Verdict(exp, obs) ==
      ELSE IF extra # {} THEN [why |-> "extra-family", fam |-> {f.name : f \in extra}]
      ELSE [why |-> "ok", fam |-> {}]
 
+(* ---------------------------------------------------------------- exporter lifecycle *)
+(* A scrape BEFORE the exporter is registered with a MeterProvider (WithReader): there is no resource and no   *)
+(* instrument yet -- nothing may be exposed (and nothing may be remembered: later scrapes are judged as usual). *)
+(* A scrape AFTER MeterProvider.Shutdown: undocumented -- nothing, or the exposition of the last state.         *)
+(* Always: no panic, accepted by the registry, legal names.                                                     *)
+Unconditional(obs) ==
+  IF obs.panic # "" THEN [why |-> "panic", fam |-> {}]
+  ELSE IF obs.gerr # "" THEN [why |-> "registry-rejects", fam |-> Range(obs.gfams)]
+  ELSE IF obs.invalid # <<>> THEN [why |-> "invalid-name", fam |-> Range(obs.invalid)]
+  ELSE [why |-> "ok", fam |-> {}]
+EmptyVerdict(obs) ==
+  IF Unconditional(obs).why # "ok" THEN Unconditional(obs)
+  ELSE IF obs.fams # <<>> THEN [why |-> "extra-family", fam |-> {obs.fams[i].name : i \in 1..Len(obs.fams)}]
+  ELSE [why |-> "ok", fam |-> {}]
+
 (* a scrape taken WHILE measurements are being recorded (exp = the exposition  *)
 (* of the final state): no crash, accepted by the registry, legal names, and   *)
 (* every family / series is one of the expected ones with the expected type,   *)
@@ -437,8 +461,8 @@ PartialVerdict(exp, obs) ==
       badf == {f \in Range(obs.fams) :
                  \/ known(f) = {}
                  \/ \E x \in known(f) : \/ f.typ # x.typ \/ (~x.anyHelp /\ f.help # x.help)
-                                        \/ \E s \in Range(f.series) : ~\E xs \in x.series : SeriesLabelsOK(xs, s)
-                                        \/ Len(f.series) > Cardinality(x.series)}
+                                        \/ ~x.lax /\ \E s \in Range(f.series) : ~\E xs \in x.series : SeriesLabelsOK(xs, s)
+                                        \/ ~x.lax /\ Len(f.series) > Cardinality(x.series)}
   IN IF obs.panic # "" THEN [why |-> "panic", fam |-> {}]
      ELSE IF obs.gerr # "" THEN [why |-> "registry-rejects", fam |-> {}]
      ELSE IF obs.invalid # <<>> THEN [why |-> "invalid-name", fam |-> Range(obs.invalid)]
